@@ -103,7 +103,7 @@ class Interp:
                 return -v if isinstance(v, float) else _wrap(-v, ti)
             if op == "~":
                 return _wrap(~v, ti)
-            if op == "+":
+            if op in ("+", "__extension__"):
                 return v
             return None
         if k == "BinaryOperator":
